@@ -684,7 +684,7 @@ std::unique_ptr<compiler::Program> parseOnly(const std::string& src, std::string
     }
 }
 
-ExecResult execOn(compiler::Program& prog, uint64_t wordSeed, uint64_t schedSeed, bool collectLog, bool quiet = false) {
+ExecResult execOn(compiler::Program& prog, uint64_t wordSeed, uint64_t schedSeed, bool collectLog, bool quiet = false, bool keepEcho = false) {
     ExecResult R;
     g_rng.reset(wordSeed, 0);
     g_rng.install();
@@ -700,7 +700,7 @@ ExecResult execOn(compiler::Program& prog, uint64_t wordSeed, uint64_t schedSeed
     gcs::beginRun(s);
     {
         runtime::RuntimeEvaluator ev(collectLog);
-        if (quiet) { ev.setEcho(false); ev.setWarnOnExit(false); }
+        if (quiet) { ev.setEcho(keepEcho); ev.setWarnOnExit(false); }
         try {
             ev.execute(prog);
         } catch (const support::BlochError& e) {
@@ -736,6 +736,7 @@ struct IsoPlan {
     int K = 2;
     bool reanalyse = false;
     bool collectLogLastOnly = false;
+    bool echoAll = false;       // asMultiShot only: like '--shots=N --echo=all' - echo stays on, so the echoed lines are compared as well
     bool asMultiShot = false;   // side A configured like the CLI's shot loop (echo off, no warnings, log only on the last execution);
                                 // side B a default fresh run; only configuration-independent observables are compared
     uint64_t wordSeed = 0, schedSeed = 0;
@@ -803,7 +804,7 @@ std::string isoSource(const IsoPlan& p) {
 
 Json isoJson(const IsoPlan& p) {
     Json j = Json::object();
-    j.set("engine", "clirun").set("what", "isolation_plan").set("family", p.family).set("K", p.K).set("reanalyse", p.reanalyse).set("log_last_only", p.collectLogLastOnly).set("word_seed", sim::hex64(p.wordSeed)).set("sched_seed", sim::hex64(p.schedSeed)).set("variant_mask", p.variantMask).set("as_multishot", p.asMultiShot);
+    j.set("engine", "clirun").set("what", "isolation_plan").set("family", p.family).set("K", p.K).set("reanalyse", p.reanalyse).set("log_last_only", p.collectLogLastOnly).set("word_seed", sim::hex64(p.wordSeed)).set("sched_seed", sim::hex64(p.schedSeed)).set("variant_mask", p.variantMask).set("as_multishot", p.asMultiShot).set("echo_all", p.echoAll);
     if (p.family == 0) j.set("program", classprog::toJson(p.cp));
     if (p.family == 1) j.set("history", qh::toJson(p.qp));
     j.set("source_text", isoSource(p));
@@ -819,6 +820,7 @@ IsoPlan isoFrom(const Json& j) {
     p.schedSeed = strtoull(j.at("sched_seed").asStr().c_str(), nullptr, 16);
     p.variantMask = (int)j.at("variant_mask").asInt();
     p.asMultiShot = j.has("as_multishot") && j.at("as_multishot").asBool();
+    p.echoAll = j.has("echo_all") && j.at("echo_all").asBool();
     if (p.family == 0) p.cp = classprog::fromJson(j.at("program"));
     if (p.family == 1) p.qp = qh::fromJson(j.at("history"));
     return p;
@@ -898,7 +900,7 @@ Verdict isoCheck(const IsoPlan& p, IsoStats& st) {
                     return arr.dump();
                 }
             }
-            ExecResult a = execOn(*shared, ws, ss, p.asMultiShot ? (k == p.K - 1) : log, p.asMultiShot);
+            ExecResult a = execOn(*shared, ws, ss, p.asMultiShot ? (k == p.K - 1) : log, p.asMultiShot, p.echoAll);
             arr.push(execJson(a, g_rng.wordsDrawn));
         }
         return arr.dump();
@@ -937,8 +939,7 @@ Verdict isoCheck(const IsoPlan& p, IsoStats& st) {
         b.r.state.clear();
         if (p.asMultiShot) {
             // echo buffer, warnings and the QASM log legitimately depend on the configuration
-            a.r.echoes.clear(); b.r.echoes.clear();
-            a.r.out.clear(); b.r.out.clear();
+            if (!p.echoAll) { a.r.echoes.clear(); b.r.echoes.clear(); a.r.out.clear(); b.r.out.clear(); }   // stdout holds the flushed echoes only; warnings go to stderr
             a.r.err.clear(); b.r.err.clear();
             a.r.qasm.clear(); b.r.qasm.clear();
         }
@@ -960,7 +961,8 @@ IsoPlan genIso(uint64_t seed, uint64_t run) {
     p.K = ks[knob.below(3)];
     p.reanalyse = knob.chance(0.3);
     p.collectLogLastOnly = knob.chance(0.4);
-    p.asMultiShot = knob.chance(0.25);
+    p.asMultiShot = knob.chance(0.3);
+    p.echoAll = p.asMultiShot && knob.chance(0.6);
     p.wordSeed = g.next();
     p.schedSeed = g.next();
     if (p.family == 0) p.cp = classprog::generate(g, knob.chance(0.3), false);
@@ -1073,6 +1075,7 @@ void runOne(const sim::Options& opt, uint64_t run, sim::RunReport& rep) {
     if (p.reanalyse) rep.count("c18.reanalysed_between_executions");
     if (p.collectLogLastOnly) rep.count("c18.qasm_log_only_on_last_execution");
     if (p.asMultiShot) rep.count("c18.configured_like_the_cli_shot_loop");
+    if (p.echoAll) rep.count("c18.configured_like_the_cli_shot_loop_with_echo_all");
     if (p.family == 2 && !(p.variantMask & 128)) {
         if (p.variantMask & 1024) rep.count("c18.gate_through_handle_of_destroyed_owner_then_reuse");
         if (p.variantMask & 2048) rep.count("c18.out_of_range_literal_on_executed_path");
